@@ -1,6 +1,7 @@
 package checks
 
 import (
+	"sync/atomic"
 	"fmt"
 	"strings"
 	"sync"
@@ -153,6 +154,7 @@ func c08(tier string) int {
 
 	var trans int64
 	var mu sync.Mutex
+	var sqlBlocked atomic.Bool
 	statesSeen := map[string]bool{}
 	ch := make(chan hist)
 	var wg sync.WaitGroup
@@ -166,6 +168,9 @@ func c08(tier string) int {
 					s = int(h.st.Size)
 				}
 				for _, store := range []string{"mem", "sql"} {
+					if store == "sql" && sqlBlocked.Load() {
+						continue // reported once; every further replay would wait another minute
+					}
 					c := cfg
 					c.Store = store
 					lo := s
@@ -190,6 +195,12 @@ func c08(tier string) int {
 							r.Proof = [][]byte{}
 						}
 						out := e.Do(r)
+						if e.Blocked {
+							if !sqlBlocked.Swap(true) {
+								run.Report("store-blocked after="+lastAccepted(h.names), fmt.Sprintf("%s store: after history %v a call did not return within 60 s (the store's only connection is held by something an earlier request leaked): no honest step can be taken any more", store, h.names), nil)
+							}
+							break
+						}
 						e.Close()
 						mu.Lock()
 						trans++
